@@ -323,9 +323,13 @@ def x_normalized(self):
     z = F(SP.vzero(v))
     if (z if isinstance(z, bool) else vc.branch(z)):
         raise ZeroDivisionError("float division by zero (normalized zero vector)")
-    k = vc.fresh("k")
-    vc.assume(k > 0, "normalized contract: k > 0")
-    vc.assume(k * k * n2 == 1, "normalized contract: unit length")
+    key = ("normalized",) + tuple(S.term(c).get_id() for c in v)
+    k = vc.sqrt_cache.get(key)  # functional consistency: the same vector is scaled by the same factor
+    if k is None:
+        k = vc.fresh("k")
+        vc.assume(k > 0, "normalized contract: k > 0")
+        vc.assume(k * k * n2 == 1, "normalized contract: unit length")
+        vc.sqrt_cache[key] = k
     r = g.Vector(*[k * c for c in v])
     vc.record("normalized", (k, v, SP.vec(r)))
     return r
